@@ -36,7 +36,7 @@ func runPure(kind string, seed uint64, rep *caseReporter) {
 }
 
 func runC18(c *Ctx) {
-	n := 400000
+	n := 4000000
 	if !c.Quick() {
 		n = 40000000
 	}
@@ -77,7 +77,7 @@ func init() {
 // ---- C19 ----------------------------------------------------------------------------------------
 
 func runC19(c *Ctx) {
-	nsig := 20000
+	nsig := 60000
 	kbProgs, kbOps := 16, 40
 	if !c.Quick() {
 		nsig, kbProgs, kbOps = 2000000, 16*8, 300
@@ -133,7 +133,7 @@ func replayC19(c *Ctx, raw json.RawMessage) {
 // ---- C20 ----------------------------------------------------------------------------------------
 
 func runC20(c *Ctx) {
-	n := 300000
+	n := 1200000
 	if !c.Quick() {
 		n = 20000000
 	}
